@@ -1,0 +1,13 @@
+//go:build verif
+
+// Contracts for the verif build tag: comment-only, read by /verif/engine (govc).
+package doh
+
+//@ # ---- C03 ("names are keyed identically whether they arrive as wire labels or presentation text, including escaped and
+//@ # non-printable octets"): the question handed to the chain by the JSON entry is built from the CANONICAL spelling of
+//@ # the ?name= parameter - the spelling the unpacker gives the same name - and a parameter that is not a name is refused
+//@ func HandleJSON$1
+//@   abstract
+//@   nosafety all pre
+//@   assert at call (*github.com/miekg/dns.Msg).SetQuestion#1: lastret("internal/dnsutil.CanonicalPresentation", 1) && arg1 == lastret("internal/dnsutil.CanonicalPresentation")
+//@   assert at call internal/dnsutil.CanonicalPresentation#1: arg0 == lastret("(net/url.Values).Get#1")
